@@ -85,6 +85,7 @@ def check_chunk(args):
     fails = []
     stats = {"evals": 0, "nontrivial": 0}
     for case in cases:
+        core.tick(case, 300)
         d = tempfile.mkdtemp(prefix="c16-", dir=workdir)
         try:
             root = os.path.join(d, "root")
